@@ -28,7 +28,10 @@ RULE = ("op files over aws_format_standard_log_line (total_length 2..300 exhaust
         "k-th write), each replayed on the Lean transition system; foreground channel and the no-alloc logger shared by 1-4 threads under the "
         "same scheduler (oracle only), all behind a sink whose every k-th write fails and which then works again (library file writer / "
         "fwrite of the no-alloc logger); pipeline logger with a writer failing on scheduled calls; subject lists of assorted sizes registered "
-        "as exact-size heap arrays, subject ids at first-1, first, last, last+1, last+2, in unregistered slots and beyond all slots")
+        "as exact-size heap arrays, subject ids at first-1, first, last, last+1, last+2, in unregistered slots and beyond all slots, lists "
+        "unregistered again; no logger installed (null logger); a formatter that succeeds without a line; loggers and file writers opened "
+        "by file NAME over two lifetimes (append vs truncate, descriptors closed); aws_log_writer_init_file argument shapes; level names "
+        "both ways in assorted case; aws_logger_init_standard shared by threads under the scheduler")
 
 LEVELS = [b"NONE", b"FATAL", b"ERROR", b"WARN", b"INFO", b"DEBUG", b"TRACE"]
 DATE_FMTS = ["%a, %d %b %Y %H:%M:%S GMT", "%Y-%m-%dT%H:%M:%SZ", "%Y%m%dT%H%M%SZ"]
@@ -274,7 +277,22 @@ def gen_pipe_random(rng, n):
     for it in range(n):
         if it == n // 2:
             ops.append(other_thread(rng, e))
-        w = rng.choice("aabn")
+        r0 = rng.random()
+        if r0 < 0.05:
+            ops.append(f"nologger {rng.randint(0, 6)} {rng.randint(0, 40)}")     # no logger installed: the null logger
+            continue
+        if r0 < 0.09:
+            ops.append("strlevel " + hx(level_text(rng)))
+            continue
+        if r0 < 0.11:
+            ops.append(f"levelname {rng.choice([0, 1, 2, 3, 4, 5, 6, 6, 7, 8, 100])}")
+            continue
+        if r0 < 0.14 and len(reg) > 1:
+            slot = rng.choice([k for k in reg if k != 0])
+            ops.append(f"unsubjects {slot}")           # its ids answer "Unknown" from now on
+            del reg[slot]
+            continue
+        w = rng.choice("aabnc")
         if w not in have:
             ops.append(f"init {w} {rng.choice([0, 1, 2, 3, 4, 5, 6, 6, 9])}")
             have.add(w)
@@ -289,6 +307,35 @@ def gen_pipe_random(rng, n):
             ops.append(log_op(rng, w, rng.choice([0, 1, 2, 3, 4, 5, 6, 6, 7, 8]), reg,
                               rng.choice([8999, 9000, 8192, rng.randint(8000, 8200), rng.randint(0, 9000)]) if big else None))
     return Case(ops, {"stream": "pipe-random"})
+
+
+def level_text(rng):
+    """texts for aws_string_to_log_level: the names in assorted case, near misses, junk"""
+    name = rng.choice(LEVELS)
+    r = rng.random()
+    if r < 0.3:
+        return name
+    if r < 0.6:
+        return bytes(c ^ 0x20 if rng.random() < 0.5 else c for c in name)
+    if r < 0.7:
+        return name[:-1]
+    if r < 0.8:
+        return name + rng.choice([b"X", b" ", b"S"])
+    if r < 0.85:
+        return b""
+    return bytes(rng.choice(b"ACEFGINORTUW[]") for _ in range(rng.randint(1, 6)))
+
+
+def gen_files(rng):
+    """loggers opened by file NAME, two lifetimes on one file; level names both ways"""
+    e, tid, ts = env_op(rng)
+    ops = [e, "subjects 0 " + " ".join(hx(n) for n in COMMON_SUBJECTS)]
+    for _ in range(3):
+        ops.append(f"filelog {rng.choice('wn')} {rng.randint(1, 3)} {rng.randint(1, 6)}")
+    ops += [f"writerinit {k}" for k in (0, 1, 2, 3)]
+    ops += [f"levelname {l}" for l in range(8)] + ["strlevel " + hx(n) for n in LEVELS] + ["strlevel " + hx(n.lower()) for n in LEVELS]
+    ops += ["strlevel " + hx(level_text(rng)) for _ in range(6)]
+    return Case(ops, {"stream": "files-and-level-names"})
 
 
 def gen_subject_boundaries(rng):
@@ -329,6 +376,7 @@ def gen_cases(rng, tier):
     for i in range(0, len(lens), 12):
         cases.append(gen_noalloc_sweep(rng, lens[i:i + 12]))
     cases += [gen_subject_boundaries(rng) for _ in range(40 if q else 600)]
+    cases += [gen_files(rng) for _ in range(16 if q else 200)]
     cases += [gen_pipe_random(rng, 40) for _ in range(400 if q else 6000)]
     return cases
 
@@ -378,6 +426,9 @@ def oracle(case, lines):
                 return errs + [f"{op}: no environment line"]
             kv = dict(x.split("=") for x in l.split()[2:])
             tid, ts = unhx(kv["tid"]), [unhx(kv["ts0"]), unhx(kv["ts1"]), unhx(kv["ts2"])]
+            if tid != unhx(t[2]):
+                errs.append(f"{op}: the id text of the thread whose pthread_t is 0x{unhx(t[2]).decode()} is {tid!r} "
+                            "(aws_thread_id_t_to_string: two hex digits per byte, most significant first)")
             for x in [tid] + ts:
                 if b"\0" in x or b"\n" in x:
                     return []   # environment text outside the model's assumptions: nothing to check
@@ -421,6 +472,60 @@ def oracle(case, lines):
             continue
         if t[0] == "wfail":
             continue
+        if t[0] == "unsubjects":
+            if nxt() is not None:
+                registry.pop(int(t[1]), None)
+            continue
+        if t[0] == "nologger":
+            l = nxt()
+            if l != "P nologger lines=0 level=0":
+                errs.append(f"{op}: no logger is installed, yet: {l}")
+            continue
+        if t[0] == "strlevel":
+            l = nxt()
+            txt = unhx(t[1])
+            want = [i for i, n in enumerate(LEVELS) if n.lower() == txt.lower()]
+            exp = f"P strlevel rc=OK level={want[0]}" if want else "P strlevel rc=AWS_ERROR_INVALID_ARGUMENT"
+            if l != exp:
+                errs.append(f"{op}: aws_string_to_log_level({txt!r}) gives `{l}`, expected `{exp}`")
+            continue
+        if t[0] == "levelname":
+            l = nxt()
+            k = int(t[1])
+            exp = f"P levelname rc=OK {hx(LEVELS[k])}" if k < 7 else "P levelname rc=AWS_ERROR_INVALID_ARGUMENT"
+            if l != exp:
+                errs.append(f"{op}: aws_log_level_to_string({k}) gives `{l}`, expected `{exp}`")
+            continue
+        if t[0] == "writerinit":
+            l = nxt()
+            exp = "P writerinit rc=OK" if t[1] in ("1", "2") else "P writerinit rc=AWS_ERROR_INVALID_ARGUMENT fds=0"
+            if l is None or not l.startswith(exp) or not l.endswith("fds=0"):
+                errs.append(f"{op}: aws_log_writer_init_file with {['neither name nor FILE', 'a name', 'a FILE', 'both a name and a FILE'][int(t[1])]}: `{l}`, expected `{exp}…fds=0`")
+            continue
+        if t[0] == "filelog":
+            l = nxt()
+            if l is None or not l.startswith("P filelog "):
+                errs.append(f"{op}: no result"); break
+            kv = dict(x.split("=") for x in l.split()[2:])
+            kind, k, level = t[1], int(t[2]), int(t[3])
+            got = []
+            for _ in range(int(kv["lines"])):
+                ln = nxt()
+                got.append(unhx(ln.split()[2]) if ln and ln.startswith("P line ") else b"")
+            while li < len(lines) and lines[li].startswith("P MONITOR"):
+                errs.append(f"{op}: {nxt()}")
+            # the file writer appends to an existing log; the no-alloc logger starts its file anew
+            rounds = [0, 1] if kind == "w" else [1]
+            want = [prefix_of(level, ts[1], tid, spec_subject_name(registry, 0)) + pattern(3 + j + 5 * r) + b"\n" for r in rounds for j in range(k)]
+            if len(got) != len(want):
+                errs.append(f"{op}: the file holds {len(got)} line(s), expected {len(want)}"
+                            + (" (lines of the first logger lifetime lost?)" if kind == "w" and len(got) < len(want) else ""))
+            elif got != want:
+                j = next(i for i in range(len(got)) if got[i] != want[i])
+                errs.append(f"{op}: line {j} of the file is {got[j][:70]!r}…, expected {want[j][:70]!r}…")
+            if kv["fds"] != "0":
+                errs.append(f"{op}: {kv['fds']} file descriptor(s) left open after both loggers were cleaned up")
+            continue
         if t[0] == "subjects":
             l = nxt()
             if l is not None and l.startswith("W subjects"):
@@ -452,7 +557,7 @@ def oracle(case, lines):
             while li < len(lines) and lines[li].startswith("P MONITOR"):
                 errs.append(f"{op}: {nxt()}")
             accepted = level_of[which] >= level and level < 7
-            want = 1 if accepted and which != "b" else 0
+            want = 1 if accepted and which not in ("b", "c") else 0
             if k != want:
                 errs.append(f"{op}: {k} line(s) reached the writer, expected {want} (logger level {level_of[which]}, call level {level})")
             if kv["live"] != "0":
@@ -521,8 +626,8 @@ def bg_run_lines(rng, n):
         lines = rng.choice([0, 1, 2, 3, 3, 4, 6])
         r = rng.random()
         # 1: drain before clean-up, 2: foreground channel, 3: no-alloc logger shared by the threads
-        quiesce = 1 if r < 0.15 else (2 if r < 0.3 else (3 if r < 0.5 else 0))
-        wfail = rng.choice([0, 0, 1, 2, 3, 4])      # every k-th write to the sink fails, the sink then works again
+        quiesce = 1 if r < 0.15 else (2 if r < 0.3 else (3 if r < 0.45 else (4 if r < 0.55 else 0)))   # 4: aws_logger_init_standard
+        wfail = rng.choice([0, 0, 1, 2, 3, 4]) if quiesce != 4 else 0     # every k-th write to the sink fails, the sink then works again
         delay = rng.choice([0, rng.randint(0, 10), rng.randint(0, 60), rng.randint(0, 150)])
         out.append(f"run {i} {senders} {lines} {delay} {quiesce} {wfail} seed {rng.getrandbits(32)} {rng.choice([0, 30, 70, 90])} {rng.choice([0, 0, 50, 200])}")
     return out
@@ -531,7 +636,8 @@ def bg_run_lines(rng, n):
 def bg_execute(exe, run_lines):
     """-> {run id: [output lines]} ; a run that deadlocks ends its process, the rest is run in a fresh one"""
     res, todo = {}, list(run_lines)
-    while todo:
+    abnormal = 0
+    while todo and abnormal < 8:      # a tree on which every run crashes must not cost a process start per run
         rc, out, _ = core.run_stream([exe], "\n".join(todo) + "\n", 300,
                                      {"ASAN_OPTIONS": "detect_leaks=0:abort_on_error=0"})
         cur = None
@@ -542,6 +648,8 @@ def bg_execute(exe, run_lines):
                 res[cur].append(l)
         done = set(res)
         rest = [r for r in todo if r.split()[1] not in done]
+        if rc != 0:
+            abnormal += 1
         if rc not in (0, 3) and cur is not None:
             res[cur].append(f"CRASH rc={rc} " + out[-1500:].replace("\n", " | "))
         if len(rest) == len(todo):
@@ -627,7 +735,17 @@ def na_oracle(cfg, lines):
 
 def bg_oracle(cfg, lines):
     """property clauses on the observables of one implementation run (O/R lines only)"""
-    if cfg.split()[5] == "3":
+    crash = [l for l in lines if l.startswith("CRASH")]
+    if crash:
+        return ["implementation crashed / sanitizer report: " + crash[0][:600]]
+    try:
+        return _bg_oracle(cfg, lines)
+    except Exception as e:      # output mangled by something the run did (closed stream, stray bytes)
+        return [f"output of the run cannot be read ({type(e).__name__}: {e}); last lines: " + " | ".join(lines[-3:])[:300]]
+
+
+def _bg_oracle(cfg, lines):
+    if cfg.split()[5] in ("3", "4"):
         return na_oracle(cfg, lines)
     errs = []
     foreground = cfg.split()[5] == "2"
@@ -772,9 +890,12 @@ def bg_stage(ctx, run_lines=None, label="seeded"):
         def mrun(idc):
             txt = []
             for i in idc:
-                if by_id[i].split()[5] in ("2", "3"):
+                if by_id[i].split()[5] in ("2", "3", "4"):
                     continue      # foreground-channel and no-alloc-logger runs: oracle only
-                ops, exp = bg_model_ops(res[i])
+                try:
+                    ops, exp = bg_model_ops(res[i])
+                except Exception:
+                    ops, exp = ["unreadable-run"], ["(unreadable)"]
                 expected[i] = exp
                 txt.append(f"case {i}")
                 txt += ops
@@ -795,10 +916,12 @@ def bg_stage(ctx, run_lines=None, label="seeded"):
         stats["spurious"] += sum(1 for l in lines if " spurious " in l)
         stats["quiesce_runs"] += any(l.startswith("O quiescent") for l in lines)
         stats["max_threads"] = max(stats["max_threads"], int(by_id[i].split()[2]) + 2)
+        lines = [l for l in lines if l.strip()]
         # clean-up called while lines were still pending or being written
         seen_clean = False
         for l in lines:
-            if l.startswith("E ") and l.split()[2] == "t0" and l.split()[3] == "yield" and l.split()[5] == "5":
+            f = l.split()
+            if l.startswith("E ") and len(f) == 6 and f[2] == "t0" and f[3] == "yield" and f[5] == "5":
                 seen_clean = True
             elif seen_clean and l.startswith("O write"):
                 stats["cleanup_with_lines_in_flight"] += 1
@@ -811,7 +934,7 @@ def bg_stage(ctx, run_lines=None, label="seeded"):
         if errs and reported < 3:
             ctx.violation(f"bg-{ctx.seed}-{i}", {"bg_run": by_id[i], "bg_replay": replay_line.strip(), "clause": errs[:5],
                                                 "observables": [l for l in lines if l.startswith(("O ", "R "))][-60:]},
-                          {"2": "foreground channel", "3": "no-alloc logger shared by threads"}.get(by_id[i].split()[5], "background channel")
+                          {"2": "foreground channel", "3": "no-alloc logger shared by threads", "4": "standard logger (aws_logger_init_standard) shared by threads"}.get(by_id[i].split()[5], "background channel")
                           + " (implementation run under the deterministic scheduler): " + errs[0])
             reported += 1
             continue
@@ -819,6 +942,8 @@ def bg_stage(ctx, run_lines=None, label="seeded"):
             stats["foreground_runs"] = stats.get("foreground_runs", 0) + 1
         elif by_id[i].split()[5] == "3":
             stats["noalloc_logger_runs"] = stats.get("noalloc_logger_runs", 0) + 1
+        elif by_id[i].split()[5] == "4":
+            stats["standard_logger_runs"] = stats.get("standard_logger_runs", 0) + 1
         elif have_model and not errs:
             got = [l for l in mres.get(i, []) if l.startswith(("P ", "W ")) or l == "bad-op"]
             exp = expected.get(i, [])
@@ -837,7 +962,7 @@ def bg_stage(ctx, run_lines=None, label="seeded"):
     ctx.cov["traces_validated_against_impl"] = ctx.cov.get("traces_validated_against_impl", 0) + stats["validated_on_model"]
     ctx.cov.setdefault("distribution", {})["background_channel_" + label] = stats
     ctx.cov["samples"].append(run_lines[0] if run_lines else "")
-    if len(res) < len(run_lines):
+    if len(res) < len(run_lines) and not ctx.violations:
         ctx.machinery_broken(f"background-channel stage: {len(run_lines) - len(res)} run(s) produced no output")
     return stats
 
